@@ -115,7 +115,10 @@ func (cc *ChangeCollector) GetChanges() []*NodeChange {
 	changes := make([]*NodeChange, len(cc.Changes))
 	idx := 0
 	for _, v := range cc.Changes {
-		changes[idx] = v
+		// hand out a copy: AddChange updates the collector's own entries in place, which would change
+		// (and race with) a change set a caller is still reading
+		c := *v
+		changes[idx] = &c
 		idx++
 	}
 	return changes
